@@ -22,6 +22,7 @@ var All = map[string]*fw.Prop{
 	"C20": C20,
 	"C16": C16,
 	"C17": C17,
+	"C18": C18,
 }
 
 // StopServers ends the server subprocesses the socket-level checks started.
